@@ -1,0 +1,24 @@
+//go:build verif
+
+package ion
+
+import "reflect"
+
+// VerifField is the exported view of a field record of fields.go.
+type VerifField struct {
+	Name        string
+	Path        []int
+	OmitEmpty   bool
+	Hint        Type
+	Annotations bool
+}
+
+// VerifFieldsFor runs fieldsFor on a struct type.
+func VerifFieldsFor(t reflect.Type) []VerifField {
+	fs := fieldsFor(t)
+	out := make([]VerifField, len(fs))
+	for i, f := range fs {
+		out[i] = VerifField{f.name, f.path, f.omitEmpty, f.hint, f.annotations}
+	}
+	return out
+}
